@@ -14,7 +14,7 @@ Notation up_to_date_c := (up_to_date project config sched fname tree tree files)
    runs under arbitrary discovery orders, starting from any state satisfying the invariant (the empty
    directory does, and every reachable state does): a non-forced run that reports success or up to date
    leaves every file of a forced generation in place - unless the state before that run lies in a
-   recorded class (kf_C08 lists the classes: 1..8 an unhashed component differs, 9 a vouched file is lost). *)
+   recorded class (kf_C08 lists the classes: 6 events differ, 8 line numbers differ under visualize_deps, 9 a vouched file is lost). *)
 Theorem C08_cache_sound : forall (ops : list cop) (sg0 : cstate * option cgen) (w : sched),
   InvW_c sg0 ->
   let sg := fold_left (stepG_c false) ops sg0 in
@@ -34,15 +34,24 @@ Theorem C08_classes_complete : forall w p c w' p' c',
   fp w p c = fp w' p' c' -> unhashed w p c = unhashed w' p' c' -> files w p c = files w' p' c'.
 Proof. exact fp_sound_modulo_unhashed. Qed.
 
-(* each recorded class is a genuine failure of the faithful model: a computed history ends in a cache hit
+(* each remaining class is a genuine failure of the faithful model: a computed history ends in a cache hit
    (result UpToDate) over files that are not those of a forced generation *)
 Theorem C08_refuted :
-  (exists ops, refutes [1] p0 c0 ops) /\ (exists ops, refutes [2] p0 c0 ops) /\ (exists ops, refutes [3] p0 cz ops) /\
-  (exists ops, refutes [4] p0 c0 ops) /\ (exists ops, refutes [5] p0 c0 ops) /\ (exists ops, refutes [6] p0 c0 ops) /\
-  (exists ops, refutes [7; 8] p0 c0 ops) /\ (exists ops, refutes [8] p0 (ex_cfg "none" true) ops) /\
+  (exists ops, refutes [6] p0 c0 ops) /\ (exists ops, refutes [8] p0 (ex_cfg "none" true) ops) /\
   (exists ops, refutes [9] p0 c0 ops).
-Proof. repeat split; eexists;
-  [exact refuted_1|exact refuted_2|exact refuted_3|exact refuted_4|exact refuted_5|exact refuted_6|exact refuted_7|exact refuted_8|exact refuted_9]. Qed.
+Proof. repeat split; eexists; [exact refuted_6|exact refuted_8|exact refuted_9]. Qed.
+
+(* the former witnesses of C08-1..5 and C08-7 (serde rename of a field, struct rename_all, validator attributes
+   in zod mode, command rename_all, parameter rename, visualize_deps switched on): the edit is detected now -
+   the run regenerates, every file is current, no class *)
+Theorem C08_repaired_witnesses_detected :
+  (exists ops, detects p0 c0 ops) /\ detects p0 c0 [Run _ _ _ _ w1 false; SetCfg _ _ _ _ (ex_cfg "none" true)] /\
+  detects p0 cz [Run _ _ _ _ w1 false; SetSrc _ _ _ _ (ex_proj (ex_struct None None v2) (ex_cmd None None) (L "ping"%string))] /\
+  detects p0 c0 [Run _ _ _ _ w1 false; SetSrc _ _ _ _ (ex_proj (ex_struct None (Some (L "camelCase"%string)) v1) (ex_cmd None None) (L "ping"%string))] /\
+  detects p0 c0 [Run _ _ _ _ w1 false; SetSrc _ _ _ _ (ex_proj (ex_struct None None v1) (ex_cmd (Some (L "snake_case"%string)) None) (L "ping"%string))] /\
+  detects p0 c0 [Run _ _ _ _ w1 false; SetSrc _ _ _ _ (ex_proj (ex_struct None None v1) (ex_cmd None (Some (L "uid"%string))) (L "ping"%string))].
+Proof. split; [eexists; exact fixed_1|]. split; [exact fixed_7|]. split; [exact fixed_3|]. split; [exact fixed_2|].
+  split; [exact fixed_4|exact fixed_5]. Qed.
 
 Theorem C08_refuted_means_unsound : forall cls p c ops, refutes cls p c ops ->
   exists r st', run_c false w1 false None (fst (final p c ops)) = (r, st') /\ r = UpToDate /\ ~ up_to_date_c w1 st'.
@@ -83,5 +92,6 @@ Print Assumptions C08_cache_sound.
 Print Assumptions C08_inv_initial.
 Print Assumptions C08_classes_complete.
 Print Assumptions C08_refuted.
+Print Assumptions C08_repaired_witnesses_detected.
 Print Assumptions C08_refuted_means_unsound.
 Print Assumptions C08_repaired_design_sound.
